@@ -27,6 +27,18 @@
                    without the model: pre-filled and fresh component end with the same field.
    [cfix]        : which variant of the value path the tree has (false = unchanged, true = fixes/D-C17g.diff applied),
                    read off the running code by the driver's facts probe; it selects the model's fx parameter.
+   [cdflt]       : Some d = the placeholder carries a default: value:"${key:d}" and prop:"key:d".  The default is for keys
+                   that are [absent] (nil / empty map / empty list, Placeholder.v); a key that is PRESENT - also with the
+                   empty string as its value - is bound as if no default were written: the three routes must agree.
+                   For an absent key the prefix route has nothing to say; value and prop must agree with each other and
+                   with the model (the default through ParseAny).
+   [cpfx], [csfx]: ckind = 2 (template): the placeholder is spliced into a longer literal, value:"<pfx>${key[:d]}<sfx>";
+                   only the value route runs.  A present string value reaches a string field as pfx ++ s ++ sfx.
+   [cG], [cmap]  : the field type as declared (Go names and struct tags) and the property's own tag argument
+                   mapper=<tag key>; the type the decoder sees is [cT] = Values.bound_type: field names by the yaml tag
+                   unless THIS property says otherwise.  The driver binds several such properties per start and runs
+                   several starts per process (groups); every case of a group is predicted on its own - what was bound
+                   before must not matter.
    [kf_class]    : the known-finding classes KF-C17a..i as predicates over the configured value /
                    literal and the field type (0 = none).  The driver accepts a failing oracle as a
                    known finding only if the case is in a class AND check_case holds (the
@@ -44,19 +56,26 @@ Inductive obs : Type :=
 
 Record case := mkCase {
   cid : nat;
-  ckind : nat;          (* 0 = configured key, three routes; 1 = literal value tag *)
+  ckind : nat;          (* 0 = configured key, three routes; 1 = literal value tag; 2 = template, value route only *)
   creq : bool;          (* false: ",required=false" on every tag *)
   ckey : bytes;         (* configuration path *)
   cv : cval;            (* Configure.Get(key): VNull = nil *)
   ctext : bytes;        (* literal: the tag text (value part and arguments) *)
-  cT : ftype;
+  cG : gtype;           (* the field type as declared: Go names and struct tags *)
   cfix : bool;          (* the tree splices float64 in plain digits (D-C17g), read off the running code *)
   o_prefix : obs;
   o_value : obs;
   o_prop : obs;
   cpre : option fval;   (* the field's contents when the component was registered (None = zero value) *)
-  o_fresh : obs         (* pre-filled cases: prefix route (literal: value route) on a zero component *)
+  o_fresh : obs;        (* pre-filled cases: prefix route (literal: value route) on a zero component *)
+  cdflt : option bytes; (* the default written in the placeholder / prop shorthand *)
+  cpfx : bytes;         (* template: literal text before ... *)
+  csfx : bytes;         (* ... and after the placeholder *)
+  cmap : option bytes   (* the tag argument mapper=<tag key> of this property *)
 }.
+
+(* the type the property's decoder sees: names by the yaml tag, or by the tag key of the property's own mapper argument *)
+Definition cT (c : case) : ftype := bound_type (cmap c) (cG c).
 
 (* ---- equality of field values ---------------------------------------------------------------- *)
 
@@ -108,10 +127,15 @@ Definition obs_of (r : res fval) : obs :=
 (* ---- the model's answer per route --------------------------------------------------------------- *)
 
 Definition cfg_case (c : case) : bytes -> cval := cfg_of [(ckey c, cv c)].
-Definition args_of (c : case) : bytes := if creq c then [] else lit_req_false.
+Definition args_of (c : case) : bytes :=
+  (if creq c then [] else lit_req_false) ++ match cmap c with Some m => lit_mapper_arg ++ m | None => [] end.
+Definition body_of (c : case) : bytes := key_dflt (ckey c) (cdflt c).
 
 Definition value_tag (c : case) : bytes :=
-  match ckind c with O => ph (ckey c) ++ args_of c | _ => ctext c end.
+  match ckind c with
+  | 1%nat => ctext c
+  | _ => cpfx c ++ ph (body_of c) ++ csfx c ++ args_of c
+  end.
 
 (* the text the binding stage of the value route sees *)
 Definition value_text (c : case) : option bytes :=
@@ -141,7 +165,7 @@ Definition model_value (c : case) : option (res fval) :=
     (bind_tag_value (cfix c) (cfg_case c) (creq c) (tag_value_part (value_tag c)) (cT c)).
 Definition model_prop (c : case) : option (res fval) :=
   option_map (keep_default c (value_binds_nothing c))
-    (bind_prop (cfix c) (cfg_case c) (creq c) (ckey c ++ args_of c) (cT c)).
+    (bind_prop (cfix c) (cfg_case c) (creq c) (body_of c ++ args_of c) (cT c)).
 
 (* ---- where the model is claimed faithful -------------------------------------------------------- *)
 
@@ -179,14 +203,25 @@ Definition prefill_ok (c : case) (nothing_bound : bool) (o : obs) : bool :=
   | Some _ => nothing_bound || obs_eqb o (o_fresh c)
   end.
 
+(* the written default applies: the key is absent in the sense of the ${} stage (nil, empty map, empty list) *)
+Definition default_applies (c : case) : bool :=
+  match cdflt c with Some _ => absent (cv c) | None => false end.
+
 Definition oracle_key (c : case) : bool :=
-  obs_eqb (o_prefix c) (o_value c) && obs_eqb (o_value c) (o_prop c)
+  (if default_applies c
+   then route_ok (value_modelled c) (model_value c) (o_value c)       (* the default, as the model of the ${} stage says *)
+   else obs_eqb (o_prefix c) (o_value c))                             (* a present key: the default plays no part *)
+  && obs_eqb (o_value c) (o_prop c)
   && match embed (cT c) (cv c) with
      | Some f => obs_eqb (o_prefix c) (OOk f)
      | None => true
      end
   && prefill_ok c (prefix_binds_nothing c) (o_prefix c)
   && route_ok (prefix_modelled c) (Some (model_prefix c)) (o_prefix c).
+
+(* template: a present string (free of $ and #) reaches a string field inside the literal as it is, whenever the whole
+   text is none of the classes ParseAny re-reads (text_class, below); elsewhere the model of the value route *)
+Definition sigil_free (s : bytes) : bool := forallb (fun c => negb (N.eqb c b_dollar || N.eqb c b_hash || is_brace c)) s.
 
 (* literal: as written into string fields; elsewhere the written text converted to the field's type *)
 Definition oracle_lit (c : case) : bool :=
@@ -200,8 +235,7 @@ Definition oracle_lit (c : case) : bool :=
   && prefill_ok c (value_binds_nothing c) (o_value c)
   && route_ok (value_modelled c) (model_value c) (o_value c).
 
-Definition oracle_case (c : case) : bool :=
-  match ckind c with O => oracle_key c | _ => oracle_lit c end.
+(* [oracle_case] follows [text_class] below *)
 
 (* the pre-fill half of the oracle alone: no known-finding class is about what the field held before *)
 Definition prefill_part (c : case) : bool :=
@@ -284,6 +318,23 @@ Definition text_class (s : bytes) : nat :=
     else 0
   end%nat.
 
+Definition oracle_tpl (c : case) : bool :=
+  match cT c, cv c with
+  | TString, VStr s =>
+    let whole := cpfx c ++ s ++ csfx c in
+    if sigil_free s && sigil_free (cpfx c) && sigil_free (csfx c) && Nat.eqb (text_class whole) 0
+       && negb (beqb whole [])
+       (* the whole template is the tag's value part: no comma of it is a top-level comma of the tag (C19's grammar; an
+          unbalanced bracket in the literal text can expose a comma inside the default) *)
+       && beqb (tag_value_part (value_tag c)) (cpfx c ++ ph (body_of c) ++ csfx c)
+    then obs_eqb (o_value c) (OOk (FStr whole)) else true
+  | _, _ => true
+  end
+  && route_ok (value_modelled c) (model_value c) (o_value c).
+
+Definition oracle_case (c : case) : bool :=
+  match ckind c with O => oracle_key c | 1%nat => oracle_lit c | _ => oracle_tpl c end.
+
 (* 1..9 = KF-C17a..i; 0 = none.  Priority: the class that explains the top-level text first. *)
 Definition kf_class (c : case) : nat :=
   match ckind c with
@@ -303,7 +354,8 @@ Definition kf_class (c : case) : nat :=
       else if placeholder then 9
       else 0
     end
-  | _ => text_class (tag_value_part (ctext c))
+  | 1 => text_class (tag_value_part (ctext c))
+  | _ => 0                       (* no class is about a placeholder spliced into a literal *)
   end%nat.
 
 (* ---- non-triviality -------------------------------------------------------------------------------- *)
@@ -337,7 +389,7 @@ Definition unmodelled_ids (cs : list case) : list nat :=
    (c17_paths_agree_key applies), and key cases whose value already has the field's type (c17_prefix_exact, embed) *)
 Definition in_safe (c : case) : bool :=
   match ckind c with
-  | O => creq c && safe (cfix c) (cv c) (cT c) &&
+  | O => creq c && match cdflt c with None => true | Some _ => false end && safe (cfix c) (cv c) (cT c) &&
          match format_cfg (cfix c) (cv c) with Ok t => inert t | _ => false end
   | _ => false
   end.
@@ -370,3 +422,53 @@ Definition domain_counts (cs : list case) : list nat :=
   [length (filter in_safe cs); length (filter in_embed cs);
    length (filter (fun c => in_safe c && is_ok (o_prefix c)) cs);
    length (filter (fun c => negb (safe_agrees c)) cs)].
+
+(* ---- the input classes of round 2: defaults on present keys, templates, mapper arguments ------------------------------ *)
+
+Definition has_default (c : case) : bool := match cdflt c with Some _ => true | None => false end.
+Definition is_empty_str (v : cval) : bool := match v with VStr [] => true | _ => false end.
+(* some struct field (at any depth) is matched under a name that is not its Go name: a struct tag decides *)
+Fixpoint renamed (tagkey : bytes) (g : gtype) {struct g} : bool :=
+  match g with
+  | GPtr t | GSlice t | GMap t => renamed tagkey t
+  | GStruct fs =>
+    (fix go (fs : list (bytes * list (bytes * bytes) * gtype)) : bool :=
+       match fs with
+       | [] => false
+       | (n, tags, t) :: r => negb (beqb (match_name tagkey n tags) n) || renamed tagkey t || go r
+       end) fs
+  | _ => false
+  end.
+Fixpoint ftype_eqb (a b : ftype) {struct a} : bool :=
+  match a, b with
+  | TString, TString | TBool, TBool | TAny, TAny => true
+  | TInt x, TInt y | TUint x, TUint y | TFloat x, TFloat y => Z.eqb x y
+  | TPtr x, TPtr y | TSlice x, TSlice y | TMap x, TMap y => ftype_eqb x y
+  | TStruct f1, TStruct f2 =>
+    (fix go (f1 f2 : list (bytes * ftype)) {struct f1} : bool :=
+       match f1, f2 with
+       | [], [] => true
+       | (n, x) :: r, (n', y) :: r' => beqb n n' && ftype_eqb x y && go r r'
+       | _, _ => false
+       end) f1 f2
+  | _, _ => false
+  end.
+(* [placeholder with a default; ... on a present key; ... whose value is the empty string; ... and the three routes agree
+    (string field, required=false: nothing is bound on either side); ... on an absent key; templates; ... that bound a value;
+    cases with a mapper argument; ... that select other names than the yaml tags would; cases without a mapper argument whose
+    yaml tags rename a field; ... that bound a value by prefix] *)
+Definition class_counts (cs : list case) : list nat :=
+  let key c := Nat.eqb (ckind c) 0 in
+  [length (filter (fun c => key c && has_default c) cs);
+   length (filter (fun c => key c && has_default c && negb (absent (cv c))) cs);
+   length (filter (fun c => key c && has_default c && is_empty_str (cv c)) cs);
+   length (filter (fun c => key c && has_default c && is_empty_str (cv c) && obs_eqb (o_prefix c) (o_value c)) cs);
+   length (filter (fun c => key c && has_default c && absent (cv c)) cs);
+   length (filter (fun c => Nat.eqb (ckind c) 2) cs);
+   length (filter (fun c => Nat.eqb (ckind c) 2 && is_ok (o_value c)) cs);
+   length (filter (fun c => match cmap c with Some _ => true | None => false end) cs);
+   length (filter (fun c => match cmap c with
+                            | Some _ => negb (ftype_eqb (cT c) (erase lit_yaml (cG c)))
+                            | None => false end) cs);
+   length (filter (fun c => match cmap c with None => renamed lit_yaml (cG c) | Some _ => false end) cs);
+   length (filter (fun c => match cmap c with None => renamed lit_yaml (cG c) && is_ok (o_prefix c) | Some _ => false end) cs)].
